@@ -14,11 +14,13 @@ ap.add_argument("--all", action="store_true")
 ap.add_argument("--tier", default="quick")
 ap.add_argument("--tests", action="store_true")
 ap.add_argument("--checks", default="")
+ap.add_argument("--scratch", action="store_true", help="apply the patch to a copy of /repo under /dev/shm (VERIF_REPO) instead of /repo itself")
+ap.add_argument("--out", default="")
 a = ap.parse_args()
 man = json.load(open(os.path.join(VERIF, "MANIFEST.json")))
 claimed = [c["property_id"] for c in man["checks"]]
 seeds = sorted(d for d in os.listdir(os.path.join(VERIF, "seeded")) if os.path.isfile(os.path.join(VERIF, "seeded", d, "patch.diff")))
-if subprocess.run(["git", "-C", "/repo", "status", "--porcelain"], capture_output=True, text=True).stdout.strip():
+if not a.scratch and subprocess.run(["git", "-C", "/repo", "status", "--porcelain"], capture_output=True, text=True).stdout.strip():
     sys.exit("/repo has uncommitted changes; refusing to apply seeds")
 results = {}
 for sid in seeds:
@@ -26,28 +28,42 @@ for sid in seeds:
         continue
     d = os.path.join(VERIF, "seeded", sid)
     meta = json.load(open(os.path.join(d, "meta.json")))
-    r = subprocess.run(["git", "-C", "/repo", "apply", os.path.join(d, "patch.diff")], capture_output=True, text=True)
+    scratch = None
+    if a.scratch:
+        scratch = f"/dev/shm/seedrepo-{os.getpid()}"
+        shutil.rmtree(scratch, ignore_errors=True)
+        shutil.copytree("/repo", scratch, ignore=shutil.ignore_patterns(".git", "build", "docs", "examples", "__pycache__", "*.egg-info"))
+        r = subprocess.run(["patch", "-p1", "-s", "-d", scratch, "-i", os.path.join(d, "patch.diff")], capture_output=True, text=True)
+    else:
+        r = subprocess.run(["git", "-C", "/repo", "apply", os.path.join(d, "patch.diff")], capture_output=True, text=True)
     if r.returncode != 0:
-        print(sid, "PATCH DOES NOT APPLY:", r.stderr.strip()[:200])
+        print(sid, "PATCH DOES NOT APPLY:", (r.stderr or r.stdout).strip()[:200])
         continue
     res = {}
     try:
-        if a.tests:
+        if a.tests and not a.scratch:
             t = subprocess.run("cd /repo && /venv/bin/python -m pytest -q -p no:cacheprovider -x --timeout=300", shell=True, capture_output=True, text=True)
             res["tests"] = "pass" if t.returncode == 0 else "FAIL"
         checks = [c for c in a.checks.split(",") if c] or (claimed if a.all else [meta["property"]])
         for c in checks:
             t0 = time.time()
             env = dict(os.environ, XMC_EVIDENCE_DIR=f"/dev/shm/seed-evidence-{os.getpid()}", XMC_REPLAY_DIR=f"/dev/shm/seed-replays-{os.getpid()}")
+            if scratch:
+                env["VERIF_REPO"] = scratch
             t = subprocess.run([os.path.join(VERIF, "check"), c, "--tier", a.tier], env=env, capture_output=True, text=True)
             clauses = sorted({ln.split()[0][7:] for ln in t.stdout.splitlines() if ln.startswith("  clause=")})
             res[c] = {"exit": t.returncode, "wall": round(time.time() - t0, 1), "clauses": clauses[:8]}
             if t.returncode == 2:
                 res[c]["err"] = (t.stderr or t.stdout)[-300:]
     finally:
-        subprocess.run(["git", "-C", "/repo", "checkout", "--", "."], check=True)
+        if scratch:
+            shutil.rmtree(scratch, ignore_errors=True)
+        else:
+            subprocess.run(["git", "-C", "/repo", "checkout", "--", "."], check=True)
         shutil.rmtree(f"/dev/shm/seed-evidence-{os.getpid()}", ignore_errors=True)
         shutil.rmtree(f"/dev/shm/seed-replays-{os.getpid()}", ignore_errors=True)
     results[sid] = res
     caught = [c for c, v in res.items() if isinstance(v, dict) and v.get("exit") == 1]
     print(sid, f"(breaks {meta['property']})", "CAUGHT by " + ",".join(caught) if caught else "MISSED", json.dumps(res), flush=True)
+    if a.out:
+        json.dump(results, open(a.out, "w"), indent=1)
